@@ -6,7 +6,12 @@ Protocol (one case = a HISTORY over several Ribosome instances):
                                               the filters each set GIVES; @render/@translate = the context names of the case
                                               that the CALL PROTOCOL of synthesize/translate rejects with TypeError because
                                               they name a positionally filled parameter - probed with an empty template)
-  ctx (<name>=<kind><truthy>,<str(value)>[,L<item>;…])*     kind: s i b n (scalars) l t (list/tuple) m (dict)
+  ctx (<name>=<kind><truthy>,<str(value)>[,L<item>;…])* [!poison] [!inplace]
+                                                             kind: s i b n f (scalars) S I F D r (str/int subclass, Fraction,
+                                                             Decimal, range) l t L T (list/tuple and subclasses) m (dict)
+                                                             x y (str() / bool() raises: `!poison`, renders not judged)
+                                                             !inplace: lists/dicts bound before keep their identity and are
+                                                             mutated to the new content
                                                              item = <kind><str(item)>[/<key>~<value>]*
   fenv (<set>:<filter>:<var>:o:<result> | <set>:<filter>:<var>:r:<class>)*   (rewritten by run_impl: the filters a
                                               set gives = builtin snapshot + the set's custom ones, applied to the values)
@@ -212,14 +217,20 @@ def static_vars(src):
 # ----------------------------------------------------------------------------------------------------------
 # --- values of unusual but legal TYPE, and values that raise at one particular step ---------------------------
 class StrSub(str):
-    """a str subclass whose str() is not its raw data (raw data = 'raw:' + text)"""
+    """a str subclass whose str() is neither its raw data (raw data = 'raw:' + text) nor what format() gives"""
     def __str__(self):
         return str.__getitem__(self, slice(4, None))
+
+    def __format__(self, spec):
+        return "fmt:" + str.__getitem__(self, slice(4, None))
 
 
 class IntSub(int):
     def __str__(self):
         return "#%d" % int(self)
+
+    def __format__(self, spec):
+        return "fmt%d" % int(self)
 
 
 class ListSub(list):
@@ -335,7 +346,7 @@ def dec_ctx(line):
     """-> (python context for the implementation, abstract context for the reference)"""
     py, ab = {}, {}
     for e in line.split()[1:]:
-        if e == "!poison":
+        if e in ("!poison", "!inplace"):
             continue
         n, rest = e.split("=", 1)
         f = rest.split(",")
@@ -698,6 +709,7 @@ class C12(Prop):
             elif o[0] == "strict": lines.append(f"strict {o[1]} {int(o[2])}")
             elif o[0] == "filt": lines.append(f"filt {o[1]} {o[2]}")
             elif o[0] == "ctx": lines += [enc_ctx(o[1]), "fenv"]
+            elif o[0] == "ctx!": lines += [enc_ctx(o[1]) + " !inplace", "fenv"]      # same objects, mutated in place
         return {"lines": lines, "note": note}
 
     def case(self, templates, ctx, renders, note="", st="bang"):
@@ -801,6 +813,17 @@ class C12(Prop):
                     ops.append(("reg", i, "", "", "nameless"))           # no name at all: ValueError, registry unchanged
                 if R.random() < 0.08:
                     ops.append(("ctx", self._ctx(R, hostile)))
+                elif R.random() < 0.06:
+                    # the caller's lists are mutated in place (appended to, emptied, items replaced) and rendered again
+                    c2 = dict(ctx)
+                    for n_ in ("xs", "ys"):
+                        if isinstance(c2.get(n_), list):
+                            v_ = list(c2[n_])
+                            k_ = R.random()
+                            v_ = v_ + [R.choice(["more", 7, {"a": "A9"}])] if k_ < 0.4 else v_[1:] if k_ < 0.7 else [R.choice(["z", 0])] * len(v_)
+                            c2[n_] = type(c2[n_])(v_)
+                    top = R.choice(tops)
+                    ops += [("render", i, top), ("ctx!", c2), ("render", i, top), ("ctx!", ctx), ("render", i, top)]
                 if R.random() < 0.04:
                     # a fault at one particular step: a bound value whose str() / bool() raises (as a scalar or as a loop
                     # item); the render under it is not judged, the renders AFTER it (clean bindings again) are
@@ -812,6 +835,8 @@ class C12(Prop):
                     ops += [("ctx", bad), ("render", i, top)]
                     if names:
                         ops.append(("translate", i, R.choice(names)))
+                    if R.random() < 0.5:      # other bindings after the fault, then the original ones
+                        ops += [("ctx", self._ctx(R, hostile)), ("render", i, top)]
                     ops += [("ctx", ctx), ("render", i, top), ("render", i, R.choice(tops))]
             yield self.hcase(ctx, ops, "malformed" if malformed else "hostile values" if hostile else "delimiter-free values")
 
@@ -900,6 +925,15 @@ class C12(Prop):
                                        [("new", 0, strict, "reent"), ("tmpl", 0, "hdr", "<{{name|again}}{{?q}}>"),
                                         ("render", 0, top), ("translate", 0, "hdr"), ("render", 0, top)],
                                        "a filter that renders on the same instance while it is rendering (re-entrancy)"))
+        LT = "{{#each xs}}[{{item}}{{index}}{{last}}]{{/each}}{{#if xs}}Y{{#else}}N{{/if}}{{xs}}{{xs|length}}"
+        for strict in (False, True):
+            hist.append(self.hcase({"xs": ["p", "q"], "b": "B"},
+                                   [("new", 0, strict, "none"), ("tmpl", 0, "lst", LT), ("render", 0, LT), ("translate", 0, "lst"),
+                                    ("ctx!", {"xs": ["p", "q", "r"], "b": "B"}), ("render", 0, LT), ("translate", 0, "lst"),
+                                    ("ctx!", {"xs": [], "b": "B"}), ("render", 0, LT), ("render", 0, "{{>lst}}"),
+                                    ("ctx!", {"xs": [{"item": "OVR"}, "q"], "b": "B"}), ("render", 0, LT), ("translate", 0, "lst"),
+                                    ("ctx", {"xs": ["p", "q"], "b": "B"}), ("render", 0, LT)],
+                                   "the caller's list is mutated in place between renders (same object, new content)"))
         # registration probes: every way of getting templates into an instance, keys equal to / different from the
         # mRNA's own name, aliases, nameless values; includes and translate(name) resolve by the caller's key
         regs = []
@@ -990,9 +1024,11 @@ class C12(Prop):
         # filter), at top level and inside an included template; afterwards the same instance renders with clean bindings
         faults = []
         good = {"a": "A", "b": "B", "xs": ["i", "j"], "flag": 1}
+        flipped = {"a": "", "xs": ["k"], "flag": 0, "q": "Q", "zz": [1]}
         FT = ["{{#if a}}T{{#else}}E{{/if}}{{q}}", "{{#each xs}}[{{index}}]{{/each}}{{q}}", "{{#each xs}}[{{item}}{{q}}]{{/each}}",
               "{{a}}{{q}}", "{{?a}}{{q}}", "{{a|dflt}}{{q}}", "{{a|upper}}{{q}}", "{{a|again}}{{q}}",
-              "{{#if flag}}{{#each xs}}{{item}}{{/each}}{{/if}}{{a}}"]
+              "{{#if flag}}{{#each xs}}{{item}}{{/each}}{{/if}}{{a}}", "{{#if a}}T{{#else}}E{{/if}}{{a}}",
+              "{{#if flag}}F{{#else}}G{{/if}}{{#each xs}}{{item}}{{/each}}{{?a}}"]
         bads = [dict(good, a=PoisonStr()), dict(good, a=PoisonBool()), dict(good, xs=["i", PoisonStr()]),
                 dict(good, xs=[PoisonBool(), "j"], flag=PoisonBool())]
         for i1, ft in enumerate(FT):
@@ -1000,7 +1036,10 @@ class C12(Prop):
                 ops = [("new", 0, strict, "reent"), ("tmpl", 0, "inner", ft), ("tmpl", 0, "page", "<{{>inner}}>{{b}}{{zz}}"),
                        ("render", 0, ft), ("translate", 0, "page")]
                 for bad in bads:
+                    # after the fault: first OTHER bindings (truthiness flipped, lists emptied, bound <-> unbound), then the
+                    # original ones - anything a failed render left behind shows as soon as the bindings differ
                     ops += [("ctx", bad), ("render", 0, ft), ("translate", 0, "page"), ("translate", 0, "inner"),
+                            ("ctx", flipped), ("render", 0, ft), ("translate", 0, "page"),
                             ("ctx", good), ("render", 0, ft), ("translate", 0, "page"), ("render", 0, "{{>inner}}{{>page}}")]
                 ops += [("strict", 0, not strict), ("render", 0, ft), ("translate", 0, "page")]
                 faults.append(self.hcase(good, ops, "a value whose str()/bool() raises at one step; then clean renders"))
@@ -1105,7 +1144,20 @@ class C12(Prop):
             if op == "env":
                 obs.append("ok")
             elif op == "ctx":
-                py, ab = dec_ctx(line)
+                newpy, ab = dec_ctx(line)
+                if "!inplace" in t:
+                    # the caller keeps its list / dict objects and MUTATES them between renders (same identity, new
+                    # content) instead of building new ones
+                    for n_, v_ in list(newpy.items()):
+                        o_ = py.get(n_)
+                        if type(o_) is type(v_) and isinstance(o_, list):
+                            o_[:] = v_
+                            newpy[n_] = o_
+                        elif type(o_) is type(v_) and isinstance(o_, dict):
+                            o_.clear()
+                            o_.update(v_)
+                            newpy[n_] = o_
+                py = newpy
                 poisoned = "!poison" in t
                 for n_, v_ in py.items():
                     if s_text(v_) != ab[n_]["text"] or s_truthy(v_) != ab[n_]["truthy"]:
